@@ -338,24 +338,94 @@ def _r16c(rep):
                              f"numeric fields {fused[0] if fused else ''} are written back to back: a value that fills its field width fuses with its neighbour and the whitespace-splitting parser reads one token", line=n.lineno)
     if n_fmt < 4:
         raise AnalysisError(f"R16c: only {n_fmt} multi-field format strings found in the FORCE_SETS/FORCE_CONSTANTS/BORN writers")
-    # fields per line: type-2 FORCE_SETS writes 6 numbers and the parser requires 6 columns
+    # fields per line: type-2 FORCE_SETS writes 3 displacement + 3 force numbers, the parser splits the same way
     p = core.find_def(FIO, "get_dataset_type2")
-    t = core.src(p)
-    rep.instance("R16c", FIO, "get_dataset_type2", "parser requires data.shape[1] == 6; writer emits 3 displacement + 3 force numbers", "data.shape[1] != 6" in t and "data[:, :, :3]" in t and "data[:, :, 3:]" in t,
-                 "the type-2 parser no longer splits 6 columns into displacements (first 3) and forces (last 3)", line=p.lineno)
+    # which dataset key receives which column slice (traced through local names, every branch must agree)
+    slices = {}  # local name -> set of (lower, upper) of the last-axis slice
+    for st in ast.walk(p):
+        if isinstance(st, ast.Assign) and isinstance(st.targets[0], ast.Name) and isinstance(st.value, ast.Subscript):
+            sl = st.value.slice.elts[-1] if isinstance(st.value.slice, ast.Tuple) else st.value.slice
+            if isinstance(sl, ast.Slice):
+                lo = sl.lower.value if isinstance(sl.lower, ast.Constant) else None
+                hi = sl.upper.value if isinstance(sl.upper, ast.Constant) else None
+                slices.setdefault(st.targets[0].id, set()).add((lo, hi))
+    keymap = {}
+    for d in [x for x in ast.walk(p) if isinstance(x, ast.Dict)]:
+        for k, v in zip(d.keys, d.values):
+            if isinstance(k, ast.Constant):
+                for nm in [x.id for x in ast.walk(v) if isinstance(x, ast.Name) and x.id in slices]:
+                    keymap[k.value] = slices[nm]
+    widths = [c.comparators[0].value for c in ast.walk(p) if isinstance(c, ast.Compare) and "shape[1]" in core.src(c.left) and isinstance(c.comparators[0], ast.Constant)]
+    ok_parse = keymap.get("displacements") == {(None, 3)} and keymap.get("forces") == {(3, None)} and widths == [6]
+    rep.instance("R16c", FIO, "get_dataset_type2", f"columns -> keys {keymap}, required width {widths}", ok_parse,
+                 "the type-2 parser no longer reads 6 columns as displacements (first 3) and forces (last 3)", line=p.lineno)
     w2 = core.find_def(FIO, "_get_FORCE_SETS_lines_type2")
-    args = [core.src(n.right) for n in ast.walk(w2) if isinstance(n, ast.BinOp) and isinstance(n.op, ast.Mod)]
-    rep.instance("R16c", FIO, "_get_FORCE_SETS_lines_type2", f"line = fmt % {args}", args == ["tuple(d) + tuple(f)"], "the type-2 writer no longer writes displacement then force on each line", line=w2.lineno)
+    # writer: which dataset key feeds the first / second half of each line (names traced through the zip loops)
+    origin = {}
+    for lp in [x for x in ast.walk(w2) if isinstance(x, ast.For)]:
+        if isinstance(lp.iter, ast.Call) and core.src(lp.iter.func) == "zip" and isinstance(lp.target, ast.Tuple):
+            for t, a_ in zip(lp.target.elts, lp.iter.args):
+                if isinstance(t, ast.Name):
+                    if isinstance(a_, ast.Subscript) and isinstance(a_.slice, ast.Constant):
+                        origin[t.id] = a_.slice.value
+                    elif isinstance(a_, ast.Name) and a_.id in origin:
+                        origin[t.id] = origin[a_.id]
+    order = []
+    for n_ in ast.walk(w2):
+        if isinstance(n_, ast.BinOp) and isinstance(n_.op, ast.Mod):
+            def flat(e):
+                if isinstance(e, ast.BinOp) and isinstance(e.op, ast.Add):
+                    return flat(e.left) + flat(e.right)
+                if isinstance(e, (ast.Tuple, ast.List)):
+                    return [y for x in e.elts for y in flat(x)]
+                if isinstance(e, ast.Starred):
+                    return flat(e.value)
+                return [e]
+            for part in flat(n_.right):
+                ks = [origin[x.id] for x in ast.walk(part) if isinstance(x, ast.Name) and x.id in origin]
+                order += ks[:1]
+    rep.instance("R16c", FIO, "_get_FORCE_SETS_lines_type2", f"each line is written from {order}", order == ["displacements", "forces"], "the type-2 writer no longer writes displacement then force on each line (the parser reads columns 0-2 as displacement)", line=w2.lineno)
     p1 = core.find_def(FIO, "_get_dataset")
-    rep.instance("R16c", FIO, "_get_dataset", "first line of 6 tokens selects type 2, of 1 token type 1", "len(first_line_ary) == 6" in core.src(p1) and "len(first_line_ary) == 1" in core.src(p1), "format detection by token count changed", line=p1.lineno)
+    counts = sorted(c.comparators[0].value for c in ast.walk(p1) if isinstance(c, ast.Compare) and core.src(c.left).startswith("len(") and isinstance(c.comparators[0], ast.Constant) and isinstance(c.ops[0], ast.Eq))
+    rep.instance("R16c", FIO, "_get_dataset", f"format detection by token count of the first line: {counts}", counts == [1, 6], "format detection by token count changed (1 token: type 1, 6 tokens: type 2)", line=p1.lineno)
 
 
 def _r16e(rep):
     fn = core.find_def(DATASET, "get_displacements_and_forces")
-    t = core.src(fn)
-    rep.instance("R16e", DATASET, "get_displacements_and_forces", "disps[i, disp1['number']] = disp1['displacement']", "disps[i, disp1['number']] = disp1['displacement']" in t, "the displaced atom's displacement is not placed at its atom index", line=fn.lineno)
-    rep.instance("R16e", DATASET, "get_displacements_and_forces", "forces[i] = disp1['forces'] for every supercell that has forces", "forces[i] = disp1['forces']" in t and "forces = np.zeros_like(disps)" in t, "forces of a type-1 dataset are not copied supercell by supercell", line=fn.lineno)
-    rep.instance("R16e", DATASET, "get_displacements_and_forces", "type-2 input is passed through", "return (disp_dataset['displacements'], forces)" in t, "type-2 datasets are no longer returned unchanged", line=fn.lineno)
+    loops = [lp for lp in ast.walk(fn) if isinstance(lp, ast.For) and "first_atoms" in core.src(lp.iter)]
+    if not loops:
+        raise AnalysisError("R16e: loop over first_atoms vanished in get_displacements_and_forces")
+    lp = loops[0]
+    if isinstance(lp.target, ast.Tuple) and len(lp.target.elts) == 2:
+        I, X = core.src(lp.target.elts[0]), core.src(lp.target.elts[1])
+    else:
+        I, X = None, core.src(lp.target)
+
+    def item(e, key):
+        return isinstance(e, ast.Subscript) and core.src(e.value) == X and isinstance(e.slice, ast.Constant) and e.slice.value == key
+
+    disp_store = force_store = None
+    for st in [x for x in ast.walk(lp) if isinstance(x, ast.Assign) and isinstance(x.targets[0], ast.Subscript)]:
+        t = st.targets[0]
+        idx = t.slice.elts if isinstance(t.slice, ast.Tuple) else [t.slice]
+        if isinstance(t.value, ast.Subscript):  # A[i][number]
+            idx = [t.value.slice] + idx
+            arr = core.src(t.value.value)
+        else:
+            arr = core.src(t.value)
+        if item(st.value, "displacement"):
+            disp_store = (arr, len(idx) == 2 and core.src(idx[0]) == I and item(idx[1], "number"), st)
+        if item(st.value, "forces"):
+            force_store = (arr, len(idx) == 1 and core.src(idx[0]) == I, st)
+    rep.instance("R16e", DATASET, "get_displacements_and_forces", core.src(disp_store[2]) if disp_store else "<no displacement store>", bool(disp_store and disp_store[1]),
+                 "the displaced atom's displacement is not placed at [supercell index, its atom index]", line=fn.lineno)
+    rep.instance("R16e", DATASET, "get_displacements_and_forces", core.src(force_store[2]) if force_store else "<no forces store>", bool(force_store and force_store[1]),
+                 "forces of a type-1 dataset are not copied supercell by supercell", line=fn.lineno)
+    rets = [r for r in ast.walk(fn) if isinstance(r, ast.Return) and isinstance(r.value, ast.Tuple) and len(r.value.elts) == 2]
+    t1 = [r for r in rets if disp_store and force_store and core.src(r.value.elts[0]) == disp_store[0] and core.src(r.value.elts[1]) == force_store[0]]
+    t2 = [r for r in rets if "['displacements']" in core.src(r.value.elts[0]).replace('"', "'")]
+    rep.instance("R16e", DATASET, "get_displacements_and_forces", "returns (displacements, forces) of the arrays just filled; type-2 input is passed through", bool(t1) and bool(t2),
+                 "the converted arrays are not what is returned (or type-2 datasets are no longer returned unchanged)", line=fn.lineno)
 
 
 def selftest():
